@@ -42,7 +42,7 @@ vars == <<cfg, pv, rv, pc, wire, delivered, invoked, status, errname, rwire, ret
 \* the oracle: what the design promises
 \* nil and empty lists / maps / byte strings are the same "nothing there" (a query string or a header cannot
 \* even express the difference)
-ContainerNests == {"elem", "mapkey", "mapval", "mapval_elem", "mapparams", "elem_nested", "mapval_nested", "mapkey_alias", "whole_elem", "whole_mapval"}
+ContainerNests == {"elem", "mapkey", "mapval", "mapval_elem", "mapparams", "alias_elem", "alias_mapval", "elem_nested", "mapval_nested", "mapkey_alias", "whole_elem", "whole_mapval"}
 Emptyish(a, v) == v # Absent /\ ((a.nest \in ContainerNests /\ v.cn = 0) \/ (a.kind = "bytes" /\ v.n = 0))
 \* (for a required list the generated client sends [] when the caller left it nil: either reading is allowed;
 \* an optional list that is left unset is simply not there, and constraints apply to present values only)
@@ -58,16 +58,18 @@ EmptyOf(a) == IF a.kind = "bytes" THEN V("bytes", 0, "plain", 1) ELSE V(a.kind, 
 \* inject the default).  The same holds for results.  Whether an explicitly empty collection counts as present for the
 \* validations (MinLength) is not said: both readings (empty -> checked, nil -> nothing to check) are allowed, as for every
 \* other empty collection.  The zero-value-or-default latitude of scalars does not apply: [0] is not the zero value of a list.
+\* Outside a body (a list in a query string or a header, with a Default) the empty list cannot be written at all: it is not on the
+\* wire, the receiver sees "unset" and may fill the default in - all three readings (empty, nil, default) are allowed there.
 ZeroScalar(a, v) == IsZero(v) /\ ~IsContainer(a)
 AllowedDelivered(a, v) ==
   IF v = Absent THEN (IF a.mode = "default" THEN {DefaultOf(a)} ELSE IF IsContainer(a) /\ a.mode = "required" THEN {Absent, EmptyOf(a)} ELSE {Absent})
-  ELSE IF Emptyish(a, v) THEN {v, Absent}
+  ELSE IF Emptyish(a, v) THEN {v, Absent} \cup (IF a.mode = "default" /\ a.loc # "body" THEN {DefaultOf(a)} ELSE {})
   ELSE IF a.mode = "default" /\ ZeroScalar(a, v) THEN {v, DefaultOf(a)}
   ELSE {v}
 \* where the attribute may be seen on the wire
 AllowedWhere(a, v) ==
   IF v = Absent THEN (IF a.mode = "default" \/ IsContainer(a) THEN {a.loc, "none"} ELSE {"none"})
-  ELSE IF Emptyish(a, v) THEN (IF a.mode = "default" THEN {a.loc} ELSE {a.loc, "none"})
+  ELSE IF Emptyish(a, v) THEN (IF a.mode = "default" /\ a.loc = "body" THEN {a.loc} ELSE {a.loc, "none"})
   ELSE IF a.mode = "default" /\ ZeroScalar(a, v) THEN {a.loc, "none"}
   ELSE {a.loc}
 \* a payload surely satisfies the design when every allowed reading of every attribute is valid
@@ -130,6 +132,7 @@ ReadBackAt(a, w, side) ==
   LET dflt == IF a.mode = "default" THEN DefaultOf(a) ELSE Absent
       c == IF w.loc = "none" THEN Absent ELSE Carried(a, w.v) IN
   IF w.loc = "none" THEN dflt
+  ELSE IF a.mode = "default" /\ a.loc # "body" /\ a.nest \in ContainerNests /\ c.cn = 0 THEN dflt      \* (an empty list parameter is no parameter)
   ELSE IF a.nest = "whole_mapval" /\ a.loc = "query" /\ Dev("decode.mapparams_prefix_expected") THEN EmptyOf(a)
   ELSE IF a.loc = "body" THEN c
   ELSE IF a.kind = "string" /\ a.nest \in {"direct", "alias", "whole"} /\ c.s = "empty" /\ Dev("param.empty_string_is_absent")
@@ -270,13 +273,14 @@ ClientSwitch ==
   /\ UNCHANGED <<cfg, pv, rv, wire, delivered, invoked, status, errname, rwire, returned>>
 \* list-valued response header of >= 2 elements, read back as a single joined element (and an empty list,
 \* written as an empty header line, read back as one empty element)
-Joined(j) == cfg.ra[j].loc = "header" /\ cfg.ra[j].nest = "elem" /\ rwire[j].loc # "none" /\ rwire[j].v.cn # 1 /\ Dev("response.header_array_joined")
+Joined(j) == cfg.ra[j].loc = "header" /\ cfg.ra[j].nest \in {"elem", "alias_elem"} /\ rwire[j].loc # "none" /\ rwire[j].v.cn # 1 /\ Dev("response.header_array_joined")
 ClientDecode ==
   /\ pc = "cdecode"
   /\ IF \E j \in RIdx : Joined(j) /\ cfg.ra[j].kind # "string"
      THEN /\ cerr' = "validation" /\ pc' = "done" /\ UNCHANGED returned       \* "3, 3" is not a number
      ELSE /\ \E m \in {3, 9}, sh \in {"plain", "space"} :      \* the odd element may or may not pass the element rule
-               returned' = [j \in RIdx |-> IF Joined(j) THEN V("string", m, sh, 1) ELSE ReadBack(cfg.ra[j], rwire[j])]
+               returned' = [j \in RIdx |-> IF Joined(j) THEN (IF rwire[j].v.cn = 0 THEN V("string", 0, "empty", 1) ELSE V("string", m, sh, 1))     \* (the empty line: one empty element)
+                                            ELSE ReadBack(cfg.ra[j], rwire[j])]
           /\ pc' = "cvalidate" /\ UNCHANGED cerr
   /\ UNCHANGED <<cfg, pv, rv, wire, delivered, invoked, status, errname, rwire>>
 ClientValidate ==
